@@ -28,6 +28,7 @@ pub enum Kind {
     RunEnd = 15,
     Cmp = 16,
     Identity = 17,
+    RunLen = 18,
 }
 impl Kind {
     fn from(x: u8) -> Kind {
@@ -49,6 +50,7 @@ impl Kind {
             15 => Kind::RunEnd,
             16 => Kind::Cmp,
             17 => Kind::Identity,
+            18 => Kind::RunLen,
             _ => panic!("bad kind"),
         }
     }
